@@ -329,11 +329,6 @@ def _check_split(case) -> Result:
         tail = np.sqrt(np.sum(s[rank:] ** 2))
         if abs(err - tail) > 10 * floor + 1e-9 * nrm:
             r.fail("split_not_best_rank_k", f"|m - l r|={err:.3e} vs discarded singular tail {tail:.3e} (rank {rank})")
-        # minimality: dropping one more singular value would have been allowed?  (never keep more than needed + noise)
-        if rank >= 1 and not cap_binds:
-            tail_more = np.sqrt(np.sum(s[rank - 1:] ** 2))
-            if tail_more < case["max_error"] * 0.5 - floor and rank > 1:
-                r.fail("split_keeps_discardable_rank", f"rank {rank} kept although tail incl. next value {tail_more:.3e} << max_error {case['max_error']:.1e}")
     else:
         if abs(np.linalg.norm(l @ rr) - nrm) > 1e-9 * nrm + 1e-300:
             r.fail("split_preserve_norm", f"|l r|={np.linalg.norm(l @ rr)!r} vs |m|={nrm!r}")
